@@ -7,6 +7,9 @@ import Enc.Driver.Json
 import Enc.Driver.JsonBuf
 import Enc.Driver.Conc
 import Enc.Driver.JsonRaw
+import Enc.Driver.JsonMapKeys
+import Enc.Driver.JsonOmit
+import Enc.Driver.JsonInlined
 /-!
 encdriver: reads `op<TAB>arg…` lines on stdin, answers `M<TAB>S<TAB>K` per line
 (model observable, spec observable, comma-separated Known classes), `bad-op` for what it cannot parse.
@@ -21,6 +24,9 @@ def dispatch (op : String) (args : List String) : Option (String × String × St
   else if op.startsWith "iso." then Driver.Iso.handle op args
   else if op.startsWith "thrift." then Driver.Thrift.handle op args
   else if op.startsWith "conc." then Driver.Conc.handle op args
+  else if op == "json.mapkeyorder" || op == "json.mapkeydec" then Driver.JsonMapKeys.handle op args
+  else if op == "json.inlined" then Driver.JsonInlined.handle op args
+  else if op == "json.omitempty" then Driver.JsonOmit.handle op args
   else if op == "json.rawemit" then Driver.JsonRaw.handle op args
   else if op == "json.bufappend" then Driver.JsonBuf.handle op args
   else if op.startsWith "json." then Driver.Json.handle op args
